@@ -72,9 +72,17 @@ Definition lift2 (c : scfg) (s : sys) (m : L2.msg) : sys * bool :=
   | (_, L2.Err) => (s, false)
   end.
 
+(* the claimer finds the position of its record in the committed event list by its sequence *)
+Fixpoint pos_of (m : N) (l : list L2.wrec) : nat :=
+  match l with
+  | [] => 0%nat
+  | w :: l' => if (L2.w_seq w =? m)%N then 0%nat else S (pos_of m l')
+  end.
+
 Definition claim_of (c : scfg) (s : sys) (sender : bytes) (idx lo hi v : N) (bh : bytes) (w : L2.wrec) : L1.msg :=
-  let ls := map (wleaf c) (events_between (l2 s) lo hi) in
-  L1.MFinalize sender (bid c) idx (L2.w_seq w) (prove (L1.hash (c1 c)) ls (N.to_nat (L2.w_seq w - lo - 1)))
+  let evs := events_between (l2 s) lo hi in
+  let ls := map (wleaf c) evs in
+  L1.MFinalize sender (bid c) idx (L2.w_seq w) (prove (L1.hash (c1 c)) ls (pos_of (L2.w_seq w) evs))
                (L2.w_from w) (L2.w_to w) (L2.w_base w) (L2.w_amt w) [v] (build (L1.hash (c1 c)) ls) bh.
 
 (* Nobody holds a key for the module-derived escrow address: no step is signed by it. *)
